@@ -265,6 +265,16 @@ fn gen_one(rng: &mut Rng, which: u64) -> (&'static str, String, bool) {
 			let (h, ok) = rt(256, &m);
 			("ChannelAnnouncement", h, ok)
 		},
+		11 => {
+			let lens = [0usize, 1, 65, 1300, 4095, 4096, 4097, 5000, 8191, 8192, 8193];
+			let l = lens[rng.below(lens.len() as u64) as usize];
+			let m = msgs::OnionMessage {
+				blinding_point: key(rng),
+				onion_routing_packet: lightning::onion_message::packet::Packet { version: rng.next() as u8, public_key: key(rng), hop_data: bytes(rng, l), hmac: arr(rng) },
+			};
+			let (h, ok) = rt(513, &m);
+			("OnionMessage", h, ok)
+		},
 		_ => {
 			let n = pick_len(rng);
 			let m = msgs::ErrorMessage {
@@ -324,7 +334,14 @@ fn show_res<T: std::fmt::Display>(r: Result<(T, usize), String>) -> String {
 	}
 }
 
-fn fields(seed: u64) {
+fn with_thr(base: &[usize], thr: &[usize], max: usize) -> Vec<usize> {
+	let mut v: Vec<usize> = base.iter().chain(thr.iter()).cloned().filter(|x| *x <= max).collect();
+	v.sort();
+	v.dedup();
+	v
+}
+
+fn fields(seed: u64, thr: &[usize]) {
 	let mut rng = Rng(seed);
 	std::panic::set_hook(Box::new(|_| {}));
 	// ---- CollectionLength
@@ -402,7 +419,7 @@ fn fields(seed: u64) {
 		});
 	}
 	// ---- length-prefixed collections and strings at the CollectionLength / u16 thresholds
-	for l in [0usize, 1, 2, 0xfffd, 0xfffe, 0xffff, 0x10000, 0x10001] {
+	for l in with_thr(&[0usize, 1, 2, 0xfffd, 0xfffe, 0xffff, 0x10000, 0x10001], thr, 140_000) {
 		guarded("vec_u8", l.to_string(), || rt_readable(&vec![0x5au8; l]));
 		guarded("string", l.to_string(), || rt_readable(&"x".repeat(l)));
 		guarded("vec_u32", l.to_string(), || rt_readable(&vec![7u32; l]));
@@ -413,14 +430,14 @@ fn fields(seed: u64) {
 	{
 		let mut r2 = Rng(seed ^ 7);
 		let s = sig(&mut r2);
-		for l in [0usize, 1, 483, 0xfffe, 0xffff, 0x10000] {
+		for l in with_thr(&[0usize, 1, 483, 0xfffe, 0xffff, 0x10000], thr, 70_000) {
 			guarded("msg:CommitmentSigned.htlc_signatures", l.to_string(), || {
 				rt_msg(&msgs::CommitmentSigned { channel_id: ChannelId([1; 32]), signature: s, htlc_signatures: vec![s; l], funding_txid: None })
 			});
 		}
 	}
 	// u16-prefixed fields
-	for l in [0usize, 1, 0xfffe, 0xffff] {
+	for l in with_thr(&[0usize, 1, 0xfffe, 0xffff], thr, 0xffff) {
 		guarded("script", l.to_string(), || rt_readable(&bitcoin::ScriptBuf::from(vec![0x51u8; l])));
 		guarded("msg:Shutdown.scriptpubkey", l.to_string(), || {
 			rt_msg(&msgs::Shutdown { channel_id: ChannelId([1; 32]), scriptpubkey: bitcoin::ScriptBuf::from(vec![0x51u8; l]) })
@@ -442,11 +459,11 @@ fn fields(seed: u64) {
 		guarded("msg:ErrorMessage.data", l.to_string(), || rt_msg(&msgs::ErrorMessage { channel_id: ChannelId([1; 32]), data: "e".repeat(l) }));
 		guarded("msg:WarningMessage.data", l.to_string(), || rt_msg(&msgs::WarningMessage { channel_id: ChannelId([1; 32]), data: "w".repeat(l) }));
 	}
-	for l in [0u16, 1, 64, 0xfffd, 0xfffe] {
+	for l in with_thr(&[0usize, 1, 64, 0xfffd, 0xfffe], thr, 0xfffe).into_iter().map(|x| x as u16) {
 		guarded("msg:Ping.byteslen", l.to_string(), || rt_msg(&msgs::Ping { ponglen: l, byteslen: l }));
 		guarded("msg:Pong.byteslen", l.to_string(), || rt_msg(&msgs::Pong { byteslen: l }));
 	}
-	for n in [0usize, 1, 2, 8190, 8191] {
+	for n in with_thr(&[0usize, 1, 2, 8190, 8191], thr, 8191) {
 		let ch = bitcoin::constants::ChainHash::from([5u8; 32]);
 		guarded("msg:QueryShortChannelIds.scids", n.to_string(), || rt_msg(&msgs::QueryShortChannelIds { chain_hash: ch, short_channel_ids: vec![0x0102030405060708; n] }));
 		guarded("msg:ReplyChannelRange.scids", n.to_string(), || {
@@ -455,7 +472,7 @@ fn fields(seed: u64) {
 	}
 	// ---- hostnames and socket addresses
 	let mut sa_hex: Vec<String> = Vec::new();
-	for l in [0usize, 1, 2, 63, 251, 252, 253, 254, 255] {
+	for l in with_thr(&[0usize, 1, 2, 63, 251, 252, 253, 254, 255], thr, 255) {
 		guarded("hostname", l.to_string(), || rt_readable(&host(l)));
 		let a = SocketAddress::Hostname { hostname: host(l), port: 0x1234 };
 		guarded("sockaddr_hostname", l.to_string(), || rt_readable(&a));
@@ -511,6 +528,105 @@ fn fields(seed: u64) {
 			}
 			Ok(())
 		});
+	}
+
+	// ---- onion messages: hop_data lengths around every chunk boundary of the packet reader, up to the
+	// largest that the u16 packet length admits
+	{
+		let mut r2 = Rng(seed ^ 0x0513);
+		let bp = key(&mut r2);
+		let pk = key(&mut r2);
+		for l in with_thr(&[0usize, 1, 65, 1300, 4095, 4096, 4097, 5000, 8191, 8192, 8193, 12288, 12289, 32768, 32769, 65432, 65468, 65469], thr, 65469) {
+			guarded("msg:OnionMessage.hop_data", l.to_string(), || {
+				let m = msgs::OnionMessage {
+					blinding_point: bp,
+					onion_routing_packet: lightning::onion_message::packet::Packet { version: 0, public_key: pk, hop_data: (0..l).map(|i| (i % 251) as u8).collect(), hmac: [0x77; 32] },
+				};
+				rt_msg(&m)?;
+				// and through the wire dispatch, re-encoded
+				let mut frame = vec![0x02u8, 0x01];
+				frame.extend_from_slice(&m.encode());
+				match wire_read(&frame) {
+					Ok(d) => if d.payload != frame[2..] { Err("wire::read re-encodes differently".to_string()) } else if !d.reencode_stable { Err("not re-encode stable".to_string()) } else { Ok(()) },
+					Err((e, _)) => Err(format!("wire::read: {}", e)),
+				}
+			});
+		}
+	}
+	// ---- hostnames with bytes outside the BOLT 7 set: ASCII alphanumerics, '.', '-' (LDK also admits '_').
+	// `F HOSTMSG <where> <name hex> <result>`: the decoder must reject every one of them (InvalidValue);
+	// the plugin judges accept <=> every byte in the set, also on the `F SA` lines below.
+	{
+		let bad: Vec<(&str, Vec<u8>)> = vec![
+			("latin_e_acute", "é".as_bytes().to_vec()),
+			("latin_sharp_s", "ß".as_bytes().to_vec()),
+			("greek", "λ".as_bytes().to_vec()),
+			("cyrillic", "ж".as_bytes().to_vec()),
+			("arabic_indic_digit", "٣".as_bytes().to_vec()),
+			("cjk", "中".as_bytes().to_vec()),
+			("devanagari_digit", "५".as_bytes().to_vec()),
+			("fullwidth_a", "Ａ".as_bytes().to_vec()),
+			("math_digit_4byte", "𝟘".as_bytes().to_vec()),
+			("deseret_4byte", "𐐀".as_bytes().to_vec()),
+			("euro_symbol", "€".as_bytes().to_vec()),
+			("emoji", "😀".as_bytes().to_vec()),
+			("space", b" ".to_vec()),
+			("bang", b"!".to_vec()),
+			("slash", b"/".to_vec()),
+			("at", b"@".to_vec()),
+			("nul", vec![0u8]),
+			("del", vec![0x7f]),
+			("lone_continuation", vec![0x80]),
+			("truncated_2byte", vec![0xc3]),
+			("overlong", vec![0xc0, 0xaf]),
+		];
+		let good: Vec<(&str, Vec<u8>)> = vec![("ascii", b"node-1.example_x.com".to_vec()), ("digits", b"0123456789".to_vec()), ("upper", b"EXAMPLE.COM".to_vec())];
+		let mut r2 = Rng(seed ^ 0x4057);
+		for (tag, seq, expect_ok) in bad.iter().map(|(t, s)| (*t, s.clone(), false)).chain(good.iter().map(|(t, s)| (*t, s.clone(), true))) {
+			for pos in 0..3 {
+				// name = prefix + seq + suffix, the odd bytes first / in the middle / last
+				let name: Vec<u8> = if expect_ok {
+					seq.clone()
+				} else {
+					match pos {
+						0 => [&seq[..], b"abc.example.com"].concat(),
+						1 => [b"caf", &seq[..], b".example.com"].concat(),
+						_ => [b"example.co", &seq[..]].concat(),
+					}
+				};
+				let mut desc = vec![5u8, name.len() as u8];
+				desc.extend_from_slice(&name);
+				desc.extend_from_slice(&[0x26, 0x07]);
+				sa_hex.push(hex(&desc));
+				// inside a node_announcement and an init: encode with an ASCII name of the same length, then patch
+				let placeholder = host(name.len());
+				let a = SocketAddress::Hostname { hostname: placeholder.clone(), port: 0x2607 };
+				let na = node_ann(&mut r2, vec![SocketAddress::TcpIpV4 { addr: [1, 2, 3, 4], port: 1 }, a.clone()], vec![], vec![]);
+				let init = msgs::Init { features: InitFeatures::from_le_bytes(vec![0x80, 0x20]), networks: None, remote_network_address: Some(a.clone()) };
+				for (what, ty, enc) in [("NodeAnnouncement", 257u16, na.encode()), ("Init", 16u16, init.encode())] {
+					let pat = a.encode();
+					let at = enc.windows(pat.len()).position(|w| w == &pat[..]);
+					let res = match at {
+						None => "HARNESS-no-pattern".to_string(),
+						Some(i) => {
+							let mut frame = ty.to_be_bytes().to_vec();
+							frame.extend_from_slice(&enc[..i]);
+							frame.extend_from_slice(&desc);
+							frame.extend_from_slice(&enc[i + pat.len()..]);
+							match std::panic::catch_unwind(|| wire_read(&frame)) {
+								Ok(Ok(_)) => "Ok".to_string(),
+								Ok(Err((e, _))) => format!("Err_{}", e.split('(').next().unwrap()),
+								Err(_) => "PANIC".to_string(),
+							}
+						},
+					};
+					println!("F HOSTMSG {}:{}@{} {} {} {}", what, tag, pos, hex(&name), if expect_ok { "expect_ok" } else { "expect_reject" }, res);
+				}
+				if expect_ok {
+					break;
+				}
+			}
+		}
 	}
 	// hand-assembled descriptors for the decoder (and the model)
 	for h in ["", "01", "0101020304", "010102030426", "01010203042607ff", "02", "0300", "05", "0500", "050000", "05000001", "0501", "050161", "0501610001", "05012e0001", "0501200001", "0501c30001", "0502c3a90001", "05ff61", "06", "0601", "00", "ff00", "04"] {
@@ -615,13 +731,18 @@ fn main() {
 				println!("{}", hex(&key(&mut rng).serialize()));
 			}
 		},
-		Some("fields") => fields(args.get(2).and_then(|x| x.parse().ok()).unwrap_or(1)),
+		Some("fields") => {
+			// optional third argument: comma-separated length thresholds (k-1, k, k+1, 2k-1, 2k+1 of every
+			// buffer/chunk constant the plugin found in the decoder sources)
+			let thr: Vec<usize> = args.get(3).map(|t| t.split(',').filter_map(|x| x.parse().ok()).collect()).unwrap_or_default();
+			fields(args.get(2).and_then(|x| x.parse().ok()).unwrap_or(1), &thr)
+		},
 		Some("gen") => {
 			let n: u64 = args[2].parse().unwrap();
 			let mut rng = Rng(args[3].parse().unwrap());
 			std::panic::set_hook(Box::new(|_| {}));
 			for i in 0..n {
-				let which = i % 11;
+				let which = i % 12;
 				let mut r2 = Rng(rng.next());
 				let r = std::panic::catch_unwind(std::panic::AssertUnwindSafe(|| gen_one(&mut r2, which)));
 				match r {
